@@ -79,6 +79,7 @@ FnTable == <<
     [f |-> "round", in |-> <<"int">>, out |-> "int"],
     [f |-> "substr", in |-> <<"str", "int", "int">>, out |-> "str"],
     [f |-> "bool", in |-> <<"any">>, out |-> "bool"],
+    [f |-> "str", in |-> <<"any">>, out |-> "str"],
     [f |-> "int", in |-> <<"int">>, out |-> "int"],
     [f |-> "int", in |-> <<"bool">>, out |-> "int"],
     [f |-> "int", in |-> <<"dec">>, out |-> "int"],
@@ -176,10 +177,15 @@ CastDate(v) ==
     CASE v.t = "date" -> v
       [] v.t = "str" -> IF ~StrOK(v.s) \/ (LooksLikeDate(v.s) /\ HasDigit(v.s)) THEN OOD ELSE Null
       [] OTHER -> Null
+DigitCh(k) == Ch("0123456789", k + 1)
+RECURSIVE NatToStr(_)
+NatToStr(n) == IF n < 10 THEN DigitCh(n) ELSE NatToStr(n \div 10) \o DigitCh(n % 10)
+IntToStr(n) == IF n < 0 THEN "-" \o NatToStr(-n) ELSE NatToStr(n)
 CastStr(v) ==
     CASE v.t = "str" -> v
-      [] v.t = "bool" -> StrV(IF v.n = 1 THEN "TRUE" ELSE "FALSE")
-      [] OTHER -> OOD                        \* str() of numbers / dates: representation, not modelled
+      [] v.t = "bool" -> StrV(IF v.n = 1 THEN "TRUE" ELSE "FALSE")     \* a boolean is not its integer value
+      [] v.t = "int" -> StrV(IntToStr(v.n))
+      [] OTHER -> OOD                        \* str() of decimals / dates: representation, not modelled
 CastTo(t, v) ==
     CASE t = "dec" -> CastDec(v)
       [] t = "int" -> CastInt(v)
@@ -227,6 +233,7 @@ FnApply(f, sig, a) ==
       [] f = "round" -> IF sig[1] = "int" THEN IntV(a[1].n) ELSE Rat(RoundHalfEven(a[1].n, a[1].d), 1)
       [] f = "substr" -> StrV(PySlice(a[1].s, a[2].n, a[3].n))
       [] f = "bool" -> BoolV(Truthy(a[1]))
+      [] f = "str" -> CastStr(a[1])
       [] f = "int" -> CastInt(a[1])
       [] f = "decimal" -> CastDec(a[1])
       [] f = "date" -> CastDate(a[1])
